@@ -1242,9 +1242,11 @@ impl<const MIN_ALIGN: usize> Bump<MIN_ALIGN> {
                         // only allocation in this chunk.
                         //
                         // Because this is the only allocation in this chunk,
-                        // we can reset the chunk's bump finger to the start of
-                        // the chunk.
-                        current_ptr.set(current_footer_p.as_ref().data);
+                        // we can reset the chunk's bump finger to the end of
+                        // the chunk's allocatable region (we bump downwards).
+                        let bump_ptr =
+                            round_mut_ptr_down_to(current_footer_p.cast::<u8>().as_ptr(), MIN_ALIGN);
+                        current_ptr.set(NonNull::new_unchecked(bump_ptr));
                     }
                 }
                 //SAFETY:
@@ -1350,9 +1352,11 @@ impl<const MIN_ALIGN: usize> Bump<MIN_ALIGN> {
                         // only allocation in this chunk.
                         //
                         // Because this is the only allocation in this chunk,
-                        // we can reset the chunk's bump finger to the start of
-                        // the chunk.
-                        current_ptr.set(current_footer_p.as_ref().data);
+                        // we can reset the chunk's bump finger to the end of
+                        // the chunk's allocatable region (we bump downwards).
+                        let bump_ptr =
+                            round_mut_ptr_down_to(current_footer_p.cast::<u8>().as_ptr(), MIN_ALIGN);
+                        current_ptr.set(NonNull::new_unchecked(bump_ptr));
                     }
                 }
                 //SAFETY:
